@@ -36,6 +36,8 @@ pub struct Spec {
     pub seed: u32,
     /// p_flags of the PT_LOAD entries (PF_X = 1, PF_W = 2, PF_R = 4); missing entries are 7
     pub load_flags: Vec<u32>,
+    /// parts of the segments' file contents that are zero: (segment, first byte, length)
+    pub zero_runs: Vec<(usize, u32, u32)>,
 }
 
 fn be16(v: &mut Vec<u8>, x: u16) {
@@ -59,6 +61,13 @@ impl Spec {
     fn seg_data(&self, k: usize) -> Vec<u8> {
         let s = &self.segs[k];
         let mut d: Vec<u8> = (0..s.filesz).map(|i| seg_byte(self.seed, s.vaddr, i)).collect();
+        for &(seg, at, len) in self.zero_runs.iter() {
+            if seg == k {
+                for i in at..(at + len).min(s.filesz) {
+                    d[i as usize] = 0;
+                }
+            }
+        }
         if let Some((ga, ref ents)) = self.got {
             for (j, e) in ents.iter().enumerate() {
                 let a = ga + 4 * j as u32;
@@ -254,6 +263,7 @@ impl Spec {
         json!({
             "segs": self.segs.iter().map(|s| json!([s.vaddr, s.filesz, s.memsz])).collect::<Vec<_>>(),
             "load_flags": self.load_flags,
+            "zero_runs": self.zero_runs.iter().map(|x| json!([x.0, x.1, x.2])).collect::<Vec<_>>(),
             "nonload": self.nonload.iter().map(|x| json!([x.0, x.1, x.2, x.3])).collect::<Vec<_>>(),
             "file_order": self.file_order,
             "got": self.got.as_ref().map(|(a, e)| json!([a, e])),
@@ -280,6 +290,7 @@ impl Spec {
             args: v["args"].as_str()?.to_string(),
             seed: u(&v["seed"])?,
             load_flags: v["load_flags"].as_array().map(|a| a.iter().map(|x| u(x).unwrap_or(7)).collect()).unwrap_or_default(),
+            zero_runs: v["zero_runs"].as_array().map(|a| a.iter().map(|x| (u(&x[0]).unwrap_or(0) as usize, u(&x[1]).unwrap_or(0), u(&x[2]).unwrap_or(0))).collect()).unwrap_or_default(),
         })
     }
 }
@@ -297,6 +308,7 @@ pub fn default_spec() -> Spec {
         args: String::new(),
         seed: 1,
         load_flags: Vec::new(),
+        zero_runs: Vec::new(),
     }
 }
 
@@ -630,6 +642,19 @@ fn arg_strings() -> Vec<String> {
         out.push(format!("{}", c as char));
         out.push(format!("p{}q r", c as char));
     }
+    // words that name things that exist on the host, behind the characters tools give a meaning to (response files,
+    // redirections, variables, home directories, globs): every one is an ordinary word for the guest
+    let scratch = crate::hv::shard::verif_dir().join(".work").join("argfile.txt");
+    let _ = std::fs::create_dir_all(scratch.parent().unwrap());
+    let _ = std::fs::write(&scratch, "X Y Z\n");
+    let mut things: Vec<String> = vec![scratch.to_string_lossy().to_string(), "/dev/null".into(), "/etc/hostname".into(), "/".into(), ".".into(), "Cargo.toml".into(), "/repo/Cargo.toml".into(), "*".into(), "HOME".into(), "PATH".into()];
+    things.push(".work/argfile.txt".into());
+    for t in things.iter() {
+        for pre in ["@", "<", ">", ">>", "$", "${", "~", "~/", "%", "-", "--", "--args=", "file://", "`", "!", "&", "|", ""] {
+            out.push(format!("{}{}", pre, t));
+            out.push(format!("a {}{} b", pre, t));
+        }
+    }
     out.sort();
     out.dedup();
     out
@@ -713,6 +738,53 @@ pub fn specs(tier: Tier) -> Vec<Spec> {
         s.load_flags = fl;
         out.push(s);
     }
+    // ---- factor: zero bytes inside the file contents (a loader that treats zero chunks / pages specially): a big
+    //      segment at three alignments relative to the absolute 4 KiB / 256-byte grid, zero runs of every length
+    //      around the distance to the next boundary, at the start, in the middle and at the end
+    for start in [0u32, 0x700 - 0x100, 4, 0x6ff] {
+        let size = 0x3000u32;
+        let to_page = (0x1000 - ((BASE + start) & 0xfff)) & 0xfff;
+        let to_256 = (0x100 - ((BASE + start) & 0xff)) & 0xff;
+        let mut runs: Vec<(u32, u32)> = Vec::new();
+        for d in [to_page, to_256, 0x1000, 0x2000] {
+            for len in [d.saturating_sub(1), d, d + 1] {
+                if len > 0 && len < size {
+                    runs.push((0, len));
+                }
+            }
+            runs.push((d, 0x1000));
+            runs.push((d + 1, 0xfff));
+            runs.push((d, 0x1001));
+        }
+        runs.push((size - 0x1000, 0x1000));
+        runs.push((0, size));
+        runs.push((1, size - 2));
+        for (at, len) in runs {
+            let mut sp = d.clone();
+            sp.segs = vec![Seg { vaddr: start, filesz: size, memsz: size + 0x10 }];
+            sp.file_order = vec![0];
+            sp.got = None;
+            sp.zero_runs = vec![(0, at, len)];
+            sp.seed = start ^ at ^ len;
+            out.push(sp);
+        }
+    }
+    // ---- factor: GOT entry values that look like addresses of the memory map (every I/O register address, the
+    //      region edges and their neighbours): each must be relocated like any other value
+    {
+        let mut vals: Vec<u32> = (0xfee000u32..=0xfee0ff).chain(0xffff20..=0xffffe9).collect();
+        for e in [0x000000u32, 0x0000ff, 0x000100, 0x400000, 0x5fffff, 0x600000, 0xfedfff, 0xfee100, 0xffbf1f, 0xffbf20, 0xffff1f, 0xffffea, 0xffffff, 0x416900, 0x4168ff] {
+            vals.push(e);
+            vals.push(e | 0x0100_0000);
+        }
+        for chunk in vals.chunks(64) {
+            let mut sp = d.clone();
+            sp.segs = vec![Seg { vaddr: 0, filesz: 0x200, memsz: 0x200 }];
+            sp.file_order = vec![0];
+            sp.got = Some((0x40, chunk.to_vec()));
+            out.push(sp);
+        }
+    }
     // ---- factor: stack sizes
     for ss in [0u32, 1, 2, 3, 4, 0x400, 0xffff, 0x10000] {
         for l in [vec![Seg { vaddr: 0, filesz: 0x71, memsz: 0x71 }], vec![Seg { vaddr: 0, filesz: 0x70, memsz: 0x73 }, Seg { vaddr: 0x100, filesz: 1, memsz: 2 }]] {
@@ -737,6 +809,27 @@ pub fn specs(tier: Tier) -> Vec<Spec> {
             }
             out.push(s);
         }
+    }
+    // ---- factor: symbol tables that contain the names linkers and C run times define, with values that are NOT the
+    //      thing the name suggests (the loader is told where things are by sections, not by these symbols)
+    {
+        let names = ["_GLOBAL_OFFSET_TABLE_", "_start", "_main", "_exit", "__exit", "_stack", "__stack", "_stack_top", "_end", "__end", "_edata", "_etext", "__bss_start", "___bss_start", "_bss", "__data_start", "_gp", "__heap_start", "__heap_end", "_argc", "_argv", "___main", "__init", "__fini", "_vectors", "___exit_hook", "___exitcode", ".got", ".stack"];
+        for (k, n) in names.iter().enumerate() {
+            for (pos, val) in [(0usize, 0x0cu32), (1, 0x5c), (2, 0xbe96fc)] {
+                let mut sp = d.clone();
+                let mut syms = sp.symbols.clone();
+                let at = pos.min(syms.len());
+                syms.insert(at, (n.to_string(), val + 4 * (k as u32 % 3)));
+                sp.symbols = syms;
+                out.push(sp);
+            }
+        }
+        // all of them at once, before and after ___exit
+        let mut sp = d.clone();
+        let mut syms: Vec<(String, u32)> = names.iter().enumerate().map(|(k, n)| (n.to_string(), 0x20 + 4 * k as u32)).collect();
+        syms.insert(names.len() / 2, ("___exit".into(), 0x62));
+        sp.symbols = syms;
+        out.push(sp);
     }
     // ---- factor: argument strings
     for a in arg_strings() {
